@@ -148,7 +148,7 @@ func TestC01(t *testing.T) {
 func TestC02(t *testing.T) {
 	r := newRun(t, "C02", "exploration")
 	defer r.Finish(t)
-	r.Rule = "same scenario families as C01 (general block); every written item carries (priority, channel, sequence number); single observer of the output: tag = priority of the item's channel, sequence number = next expected of that channel, nothing that was not written; at termination (epilogue closes all inputs and releases everything) the received set equals the written set; simple disciplines: every Handle argument exactly once; real-clock block with H concurrent handlers: exactly-once, tags, and per-priority order decided on receive intervals (if a was written before b on one input, the receive of b must not have returned before the receive of a was called). non-trivial = scenario that terminated normally with >= 2 priorities having carried >= 2 items each; distinct by scenario fingerprint"
+	r.Rule = "same scenario families as C01 (general block and the v1 AddInput/RemoveInput block, where channels that were closed and drained are also replaced); every written item carries (priority, channel, sequence number); single observer of the output: tag = priority of the item's channel, sequence number = next expected of that channel, nothing that was not written; at termination (epilogue closes all inputs and releases everything) the received set equals the written set; simple disciplines: every Handle argument exactly once; real-clock block with H concurrent handlers: exactly-once, tags, and per-priority order decided on receive intervals (if a was written before b on one input, the receive of b must not have returned before the receive of a was called). non-trivial = scenario that terminated normally with >= 2 priorities having carried >= 2 items each; distinct by scenario fingerprint"
 	r.Assumptions = []string{prioAssume}
 	r.Floor = 20
 	if replayPrio(t, r) {
@@ -161,6 +161,12 @@ func TestC02(t *testing.T) {
 			if r.WantSample() {
 				r.Sample(prioSample(c))
 			}
+		}
+	})
+	r.Parallel(t, "v1-add-remove", r.Cfg.pick(500, 15000), func(t *testing.T, idx int, rng *rand.Rand) {
+		c := r.prioCase(t, genPrioScenario(rng, prioGen{Vers: []string{"v1"}, Dividers: allDividers, Mode: "addrm"}))
+		if c.res != nil && c.res.Terminated && c.res.TermWay == "drained" && c.res.PriosWith2 >= 2 {
+			r.NonTrivial(jsonString(c.sc))
 		}
 	})
 	// real clock: H concurrent handlers; exactly-once, tags, and per-priority order decided on
@@ -202,7 +208,7 @@ func TestC05(t *testing.T) {
 func TestC06(t *testing.T) {
 	r := newRun(t, "C06", "exploration")
 	defer r.Finish(t)
-	r.Rule = "bounded progress on the fake clock (L = 50us virtual, about 1000 scheduler rounds), Fair and Rate only, all H the constructor accepts incl. the exact minimum and skewed sets (e.g. {1000,1}), unbuffered inputs, inputs closing at different times, delayed/batched releases: (a) probe: nothing in flight, every release consumed, some input holds an undelivered item => an item is received within L with no release; (b) probe: a priority that alone has >= H items occupies all H handlers within L with no release; (c) epilogue: handlers release everything at once => every written item is received (each within L of the previous) and the discipline terminates. A busy loop is caught by the real-time watchdog (stack samples). non-trivial = scenario with >= 1 probe evaluated and normal termination; distinct by scenario fingerprint"
+	r.Rule = "bounded progress on the fake clock (L = 50us virtual, about 1000 scheduler rounds), Fair and Rate only, all H the constructor accepts incl. the exact minimum and skewed sets (e.g. {1000,1}), unbuffered inputs, inputs closing at different times, delayed/batched releases: (a) probe: nothing in flight, every release consumed, some input holds an undelivered item => an item is received within L with no release; (b) probe: a priority that alone has >= H items already buffered occupies all H handlers within L with no release; (b') lone-burst probe: from the empty state one priority alone gets data in several bursts (buffered or unbuffered) with no release - while fewer than H of its items are in flight and one is waiting, the next must arrive within L, unless the documented wait applies (it is above its share and the divider cannot give every other priority one of the vacant handlers); (c) epilogue: handlers release everything at once => every written item is received (each within L of the previous) and the discipline terminates. A busy loop is caught by the real-time watchdog (stack samples). non-trivial = scenario with >= 1 probe evaluated and normal termination; distinct by scenario fingerprint"
 	r.Assumptions = []string{prioAssume, "unbounded 'eventually' is restated as progress within L virtual nanoseconds"}
 	r.Floor = 20
 	if replayPrio(t, r) {
@@ -215,7 +221,10 @@ func TestC06(t *testing.T) {
 		}
 		r.Count("progress_probes(nothing in flight)", int64(c.res.Probes))
 		r.Count("alone_probes(single priority gets all handlers)", int64(c.res.AloneProbes))
-		if c.res.Probes+c.res.AloneProbes >= 1 && c.res.Terminated && c.res.TermWay == "drained" {
+		r.Count("lone_burst_probes", int64(c.res.LoneBursts))
+		r.Count("lone_burst_deliveries_without_release", int64(c.res.LoneSteps))
+		r.Count("lone_burst_documented_waits_seen", int64(c.res.LoneLegitWaits))
+		if c.res.Probes+c.res.AloneProbes+c.res.LoneBursts >= 1 && c.res.Terminated && c.res.TermWay == "drained" {
 			r.NonTrivial(jsonString(c.sc))
 			if r.WantSample() {
 				r.Sample(prioSample(c))
